@@ -5,7 +5,7 @@ from .lib import ev
 PROP = 'C12'
 LEVEL = 'exploration'
 BUDGET = {'quick': 30, 'thorough': 400}
-FLOOR = {'quick': 3000, 'thorough': 50000}
+FLOOR = {'quick': 3000, 'thorough': 25000}
 RULE = ('pairs of generated SassScript values: numbers near 1 and near rounding ties (k ulps apart), 0/-0/subnormals, '
         'numbers with convertible units, strings in both quote styles and with escapes, colors in hex/name/rgb/hsl/hwb '
         'notation, lists with every separator/bracket, maps, booleans, null, functions; a pair is drawn either from the '
